@@ -1,7 +1,7 @@
 """C07 -- scheduling is pure: existing procedures never change."""
 import json
 
-from vf import explore, menus, oracles, seeds, irx
+from vf import explore, menus, oracles, seeds, irx, plans
 from vf.oracles import BaseOracle
 from vf.checks.c01 import fill_evidence, seed_list, replay  # noqa
 
@@ -114,10 +114,9 @@ Oracle.fault_points = _fault_points
 
 def run(rep):
     tier = rep.tier
-    names = seed_list(tier)
-    if tier == "quick":
-        st = explore.explore(rep, names, "vf.checks.c07", tier, depth=1, root_parts=6, safe_only=False, include_unsafe=True)
-    else:
-        st = explore.explore(rep, names, "vf.checks.c07", tier, depth=2, root_parts=8, safe_only=False, include_unsafe=True,
-                             max_states_per_level=3000, time_budget_s=3000, extra={"faults": True})
+    phases = plans.standard(tier, thorough_cap=3000)
+    if tier != "quick":
+        for ph in phases:
+            ph["extra"] = {"faults": True}
+    st = plans.run_plan(rep, "vf.checks.c07", tier, phases, safe_only=False, include_unsafe=True)
     fill_evidence(rep, st)
